@@ -110,6 +110,93 @@ def add_oos_supplies(rng, spec):
     return spec
 
 
+# ------------------------------------------------------------------------------ fixed corpus (always runs first)
+def _j(i, p=5.0, t=300.0):
+    return ["create_junction", {"index": i, "pn_bar": p, "tfluid_k": t}]
+
+
+def _pipe(i, a, c, sections=1, **kw):
+    d = {"index": i, "from_junction": a, "to_junction": c, "length_km": 0.2, "inner_diameter_mm": 80.0, "k_mm": 0.1,
+         "sections": sections}
+    d.update(kw)
+    return ["create_pipe_from_parameters", d]
+
+
+def corpus():
+    """hand-built nets that contain, in every run, the shapes the property depends on:
+       * flow-return-connect elements (controlling flow controller, heat consumer) whose BOTH junctions are supplied
+         through other elements - with flags that switch them off / make them passive
+       * a pressure controller (directed) whose inlet loses its supply while its outlet stays supplied, and one that is
+         the only link of a leaf
+       * a flow-return-connect element as the only link of a junction, a passive flow controller as only link entered
+         from its to_junction, a closed junction-pipe valve, an island, switched-off supplies next to live ones
+     returns [(name, spec, flags enumerated first, monitor settings [[table, column, index, value], ...] list)]"""
+    out = []
+    for fluid, scale in (("water", 0.05), ("lgas", 0.002)):
+        ops = [_j(i) for i in range(9)]
+        ops += [["create_ext_grid", {"index": 0, "junction": 0, "p_bar": 5.0, "t_k": 300.0}],
+                ["create_ext_grid", {"index": 1, "junction": 2, "p_bar": 5.0, "t_k": 300.0, "in_service": False}],
+                _pipe(10, 0, 1), _pipe(4, 1, 2, sections=3), _pipe(7, 0, 2), _pipe(2, 2, 3, sections=2), _pipe(9, 0, 5),
+                # controlling flow controller and heat consumer parallel to pipes: both junctions supplied anyway
+                ["create_flow_control", {"index": 0, "from_junction": 1, "to_junction": 2,
+                                         "controlled_mdot_kg_per_s": scale, "control_active": True, "in_service": True}],
+                ["create_heat_consumer", {"index": 0, "from_junction": 3, "to_junction": 1, "qext_w": 1000.0,
+                                          "controlled_mdot_kg_per_s": scale}],
+                # passive flow controller: only link of junction 6, entered from its to_junction
+                ["create_flow_control", {"index": 1, "from_junction": 6, "to_junction": 3,
+                                         "controlled_mdot_kg_per_s": scale, "control_active": False, "in_service": True}],
+                # pressure controller from 5 (fed only by pipe 9) to the supplied junction 3
+                ["create_pressure_control", {"index": 0, "from_junction": 5, "to_junction": 3, "controlled_junction": 3,
+                                             "controlled_p_bar": 4.0, "control_active": True, "in_service": True,
+                                             "check_controllability": False}],
+                # heat consumer as the only link of junction 7; island 8
+                ["create_heat_consumer", {"index": 1, "from_junction": 2, "to_junction": 7, "qext_w": 500.0,
+                                          "controlled_mdot_kg_per_s": scale}],
+                ["create_valve", {"index": 0, "junction": 2, "element": 2, "et": "pi", "inner_diameter_mm": 80.0,
+                                  "opened": True, "loss_coefficient": 0.0}]]
+        for k, j in enumerate((1, 3, 5, 6, 7, 8)):
+            ops.append(["create_sink", {"index": k, "junction": j, "mdot_kg_per_s": scale * (k + 1)}])
+        spec = {"fluid": fluid, "ops": ops}
+        flags = [("flow_control", "in_service", 0), ("heat_consumer", "in_service", 0), ("pipe", "in_service", 9),
+                 ("flow_control", "control_active", 1), ("press_control", "in_service", 0), ("valve", "opened", 0),
+                 ("flow_control", "control_active", 0), ("heat_consumer", "in_service", 1), ("pipe", "in_service", 4),
+                 ("ext_grid", "in_service", 1)]
+        settings = [[], [["flow_control", "in_service", 0, False]], [["heat_consumer", "in_service", 0, False]],
+                    [["pipe", "in_service", 9, False]], [["flow_control", "control_active", 1, True]],
+                    [["valve", "opened", 0, False]],
+                    [["flow_control", "in_service", 0, False], ["heat_consumer", "in_service", 0, False],
+                     ["pipe", "in_service", 9, False]]]
+        out.append(("mesh_" + fluid, spec, flags, settings))
+    # district heating loop: two parallel heat consumers, a flow control + heat exchanger rung, live and dead pumps
+    ops = [_j(i, 6.0, 340.0) for i in range(7)]
+    ops += [_pipe(0, 0, 1, sections=2, u_w_per_m2k=1.0, text_k=283.15), _pipe(1, 1, 2, u_w_per_m2k=1.0, text_k=283.15),
+            _pipe(5, 5, 4, sections=3, u_w_per_m2k=1.0, text_k=283.15), _pipe(3, 4, 3, u_w_per_m2k=1.0, text_k=283.15),
+            ["create_heat_consumer", {"index": 0, "from_junction": 1, "to_junction": 4, "qext_w": 20000.0,
+                                      "controlled_mdot_kg_per_s": 0.4}],
+            ["create_heat_consumer", {"index": 1, "from_junction": 2, "to_junction": 5, "qext_w": 30000.0,
+                                      "controlled_mdot_kg_per_s": 0.6}],
+            ["create_heat_consumer", {"index": 2, "from_junction": 2, "to_junction": 5, "qext_w": 10000.0,
+                                      "controlled_mdot_kg_per_s": 0.3}],
+            ["create_flow_control", {"index": 0, "from_junction": 1, "to_junction": 6, "controlled_mdot_kg_per_s": 0.2}],
+            ["create_heat_exchanger", {"index": 0, "from_junction": 6, "to_junction": 4, "qext_w": 5000.0,
+                                       "inner_diameter_mm": 80.0}],
+            ["create_circ_pump_const_pressure", {"index": 1, "return_junction": 3, "flow_junction": 0, "p_flow_bar": 6.0,
+                                                 "plift_bar": 1.5, "t_flow_k": 360.0, "in_service": False}],
+            ["create_circ_pump_const_pressure", {"index": 0, "return_junction": 3, "flow_junction": 0, "p_flow_bar": 6.0,
+                                                 "plift_bar": 1.5, "t_flow_k": 360.0}],
+            ["create_circ_pump_const_mass_flow", {"index": 0, "return_junction": 4, "flow_junction": 1, "p_flow_bar": 6.0,
+                                                  "mdot_flow_kg_per_s": 1.0, "t_flow_k": 350.0, "in_service": False}]]
+    spec = {"fluid": "water", "ops": ops, "heat_modes": ["MF_QE"]}
+    flags = [("heat_consumer", "in_service", 1), ("heat_consumer", "in_service", 0), ("flow_control", "in_service", 0),
+             ("circ_pump_pressure", "in_service", 1), ("flow_control", "control_active", 0), ("pipe", "in_service", 1),
+             ("heat_consumer", "in_service", 2), ("circ_pump_pressure", "in_service", 0), ("pipe", "in_service", 5),
+             ("heat_exchanger", "in_service", 0)]
+    settings = [[], [["heat_consumer", "in_service", 1, False]], [["heat_consumer", "in_service", 0, False]],
+                [["flow_control", "in_service", 0, False]], [["pipe", "in_service", 1, False]]]
+    out.append(("heat_loop", spec, flags, settings))
+    return out
+
+
 SOLE_LINK_KINDS = ("pipe", "valve", "pump", "compressor", "heat_exchanger", "flow_control_passive",
                    "flow_control_active", "heat_consumer", "press_control")
 
@@ -569,6 +656,14 @@ def no_supply_monitor(ctx, spec):
 def monitors(ctx, widen=False):
     rng = ctx.rng
     sole_link_matrix(ctx)
+    for name, spec, _, settings in corpus():
+        for changed in settings:
+            ctx.count("monitor_corpus")
+            try:
+                one_monitor_case(ctx, rng, spec, changed=changed)
+            except Exception:  # noqa: BLE001
+                import traceback
+                ctx.broken("harness", "C04 corpus monitor " + name, traceback.format_exc()[-600:])
     n = 40 if ctx.quick else 400
     if widen:
         n *= 3
@@ -623,6 +718,19 @@ def one_monitor_case(ctx, rng, spec, changed=None):
         ctx.case({"monitor": "supplied_part", "net": spec, "changed": changed, "outcome": st}, False)
         return st
     snap = drive.snapshot_results(net)
+    # the masks the run used vs the property (reachability with the documented element kinds)
+    exp = reach_oracle(net["_pit"]["node"], net["_pit"]["branch"], net)
+    L = net["_lookups"]
+    if exp is None or not (np.array_equal(exp[0], L["node_active_hydraulics"]) and
+                           np.array_equal(exp[1], L["branch_active_hydraulics"])):
+        kind_ = "failure" if exp is None else "node_mask" if not np.array_equal(exp[0], L["node_active_hydraulics"]) \
+            else "branch_mask"
+        d = [] if exp is None else np.flatnonzero(exp[1] != L["branch_active_hydraulics"]).tolist() if kind_ == "branch_mask" \
+            else np.flatnonzero(exp[0] != L["node_active_hydraulics"]).tolist()
+        ctx.violation({"fn": "identify_active_nodes_branches", "kind": kind_, "where": "pipeflow"},
+                      "the run calculated a part of the net that differs from what is reachable from the in-service "
+                      "supplies through connecting in-service elements: %s rows %r" % (kind_, d[:8]),
+                      {"kind": "nan_pattern", "net": spec, "changed": changed, "options": kw})
     masks = table_masks(net)
     partial = any(m is not None and len(m) and not m.all() for m in masks.values())
     ctx.case({"monitor": "supplied_part", "net": spec, "changed": changed}, partial)
